@@ -449,3 +449,41 @@ func TestC17(t *testing.T) {
 		Col.Case(p.Hash(), func() string { return p.Cfg.String() + " " + clip(string(p.Extra), 500) }, nt, r.labels, 0)
 	})
 }
+
+// ---- native fuzz targets (thorough tier): rapid's generators driven by the
+// coverage-guided mutator through rapid.MakeFuzz ----
+
+func fuzzSeeds(f *testing.F) {
+	f.Add([]byte{})
+	f.Add(bytes.Repeat([]byte{0xff}, 64))
+	f.Add(bytes.Repeat([]byte{0x00, 0x7f, 0x80, 0xff, 0x01}, 40))
+	f.Add([]byte("0m1o2s0m1o2s\x04\x00\x00\x00\x10\x00\x00\x003s4p5s3s4p5s"))
+}
+
+func FuzzC09(f *testing.F) {
+	fuzzSeeds(f)
+	spec := &GenSpec{Prop: "C09", Backings: allBackings, Holds: true, Children: true}
+	f.Fuzz(rapid.MakeFuzz(func(rt *rapid.T) {
+		p, _ := genIterProgram(rt, spec)
+		RunHistory(rt, p, oraclesFor["C09"])
+	}))
+}
+
+func FuzzC14(f *testing.F) {
+	fuzzSeeds(f)
+	f.Fuzz(rapid.MakeFuzz(func(rt *rapid.T) {
+		RunC14(rt, genC14(rt))
+	}))
+}
+
+func FuzzC19(f *testing.F) {
+	fuzzSeeds(f)
+	spec := &GenSpec{Prop: "C19", Backings: []string{"mem", "store", "store", "ll"}, MaxOps: 20, Holds: true, Reopen: true,
+		Hostile: true, Alloc: true, Merge: true}
+	f.Fuzz(rapid.MakeFuzz(func(rt *rapid.T) {
+		p, _ := genHistory(rt, spec)
+		o := Oracles{CollEveryStep: true, StoreEveryStep: true, FinalReopen: true}
+		RunHistory(rt, p, o)
+		RunHistory(rt, twin(p), o)
+	}))
+}
